@@ -548,6 +548,7 @@ type FuncContract struct {
 	Modifies []string
 	Ghosts   []Clause // ghost NAME = expr evaluated at entry
 	Oracle   string   // Go boolean expression for replay
+	Counters [][2]string // ghost call counters: name, source-text prefix
 	Refines  string   // interface-method contract this implementation must satisfy
 	Params   []string // parameter names (interface contracts)
 	Witness  string   // Go function (replay_helpers.go) running known-tricky inputs on the real code
@@ -556,20 +557,26 @@ type FuncContract struct {
 	Line     int
 }
 
+type Immutable struct {
+	Prefix string // heap family prefix, e.g. F$Mux.opts
+	Except string // function allowed to initialise it
+}
+
 type Contracts struct {
 	Funcs    map[string]*FuncContract
 	Order    []string
 	Specs    map[string]*SpecFunc
 	Consts   map[string]string // named integer constants
 	Globals  []string
+	Immutables []Immutable
 	Regions  map[string]string // heap family of a slice-typed field -> read-only region of its backing arrays
 	Source   string
 }
 
 var clauseKeywords = map[string]bool{
-	"spec": true, "rec": true, "pred": true, "func": true, "region": true, "lib": true, "iface": true, "requires": true, "ensures": true,
+	"spec": true, "rec": true, "pred": true, "func": true, "region": true, "immutable": true, "lib": true, "iface": true, "requires": true, "ensures": true,
 	"loop": true, "returns": true, "modifies": true, "ghost": true, "oracle": true,
-	"const": true, "pure": true, "trusted": true, "assert": true, "assume": true, "deadcode": true, "applies": true, "witness": true, "decreases": true, "refines": true, "params": true,
+	"const": true, "pure": true, "trusted": true, "assert": true, "assume": true, "deadcode": true, "applies": true, "witness": true, "decreases": true, "refines": true, "params": true, "count": true, "callsites": true,
 }
 
 func loadContracts(paths ...string) (*Contracts, error) {
@@ -638,6 +645,15 @@ func (cs *Contracts) parse(path, data string) error {
 		kw := w[0]
 		body := strings.TrimSpace(rc.text[len(kw):])
 		switch kw {
+		case "immutable":
+			// immutable F$Type.field : no store to these heap families outside the listed constructor (checked by scan)
+			f := strings.Fields(body)
+			im := Immutable{Prefix: f[0]}
+			if len(f) >= 3 && f[1] == "except" {
+				im.Except = f[2]
+			}
+			cs.Immutables = append(cs.Immutables, im)
+			cur = nil
 		case "region":
 			// region TYPE.field : the arrays referenced by that slice field are never written after the field is set
 			cs.Regions["F$"+strings.TrimSpace(body)] = strings.TrimSpace(body)
@@ -768,6 +784,26 @@ func (cs *Contracts) parse(path, data string) error {
 					return fail(err)
 				}
 				cur.Clauses = append(cur.Clauses, Clause{Kind: "recdec", E: e, Text: body})
+			case "count":
+				// count NAME `call text prefix` : ghost counter of executed calls whose source text starts with the prefix
+				f := strings.Fields(body)
+				at, _, ok := anchorText(strings.TrimSpace(body[len(f[0]):]))
+				if !ok {
+					return fail(fmt.Errorf("bad count clause"))
+				}
+				cur.Counters = append(cur.Counters, [2]string{f[0], at})
+			case "callsites":
+				// callsites `call text prefix` N : the body contains exactly N call sites with that source text prefix
+				at, rest, ok := anchorText(body)
+				n := 0
+				if ok {
+					_, err := fmt.Sscanf(rest, "%d", &n)
+					ok = err == nil
+				}
+				if !ok {
+					return fail(fmt.Errorf("bad callsites clause"))
+				}
+				cur.Clauses = append(cur.Clauses, Clause{Kind: "callsites", At: at, AtOrd: n, Text: body})
 			case "refines":
 				cur.Refines = strings.TrimSpace(body)
 			case "params":
